@@ -317,9 +317,15 @@ func (r *Run) Finish(level string) int {
 	if r.Native != nil {
 		r.Native.Close()
 	}
-	for _, v := range r.violations {
+	for i, v := range r.violations {
 		fmt.Printf("VIOLATION property=%s replay=%s\n", r.ID, v.Replay)
-		fmt.Printf("  class=%s %s\n", v.Class, v.What)
+		if i < 15 {
+			what := v.What
+			if len(what) > 600 {
+				what = what[:600] + "..."
+			}
+			fmt.Printf("  class=%s %s\n", v.Class, what)
+		}
 	}
 	fmt.Printf("%s %s: paths=%d completed=%d inconclusive=%v queries=%d solver_s=%.1f wall_s=%.1f violations=%d known=%d\n",
 		r.ID, r.Tier, paths, completed, inc, sv.Queries, sv.Seconds, r.Ev.WallS, len(r.violations), len(kf))
